@@ -63,6 +63,12 @@ extern "C" void w_c14_same_scalar(int k1, int n1, int l1, int lo1, int hi1, int 
     int b = 0;
     for (int i = 0; i < NID; i++)
         for (int j = 0; j <= i; j++) { bool v = (m >> b) & 1; M[i][j] = v; M[j][i] = v; b++; }
+    /* induction hypothesis on the contract: besides symmetry, transparency of a wrapper node (ids 0/2) w.r.t. its child (ids 1/3) */
+#define WRAPK(k) ((k) == REF || (k) == CONSTANT || (k) == SYSTEM_META)
+    for (int i = 0; i < NID; i++) {
+        if (WRAPK(k1)) __CPROVER_assume(M[i][0] == M[i][1]);
+        if (WRAPK(k2)) __CPROVER_assume(M[i][2] == M[i][3]);
+    }
     type_t t1 = mk(k1, n1, 0, 1, l1, lo1, hi1), t2 = mk(k2, n2, 2, 3, l2, lo2, hi2);
     *r12 = isSameScalarType(t1, t2);
     *r21 = isSameScalarType(t2, t1);
